@@ -257,7 +257,11 @@ class Term(ItemSequenceT[T]):
             pass
         it = _iter_normalized(self, self.normalize_elem)
         items = self._reduce_items(it, keep_item_order=False)
-        if items == self._items:  # self is already normalized
+        # self is already normalized if it has the same items; non-numeric
+        # elements must be identical (equal elements may be convertible ones)
+        if items == self._items and \
+                all(isinstance(elem, Rational) or elem is self_elem
+                    for (elem, _), (self_elem, _) in zip(items, self._items)):
             self._normalized = self
             return self
         term = self.__class__(items, reduce_items=False)
